@@ -243,7 +243,7 @@ func NewWorld(cfg Config) (*World, error) {
 		// that holds the create role (plus the other roles of the kind), a counter near a byte
 		// boundary and one old piece (nonce 1) it still holds
 		// byte-length boundaries of the big-endian spelling and of the base-128 (varint) spelling
-		counters := []uint64{254, 255, 256, 510, 511, 65534, 65535, 1<<32 - 2, 126, 127, 16382, 16383, 1<<21 - 2, 1<<21 - 1, 1<<28 - 1, 1<<35 - 1}
+		counters := []uint64{254, 255, 256, 510, 511, 65534, 65535, 1<<32 - 2, 126, 127, 16382, 16383, 1<<21 - 2, 1<<21 - 1, 1<<28 - 1, 1<<35 - 1, 1<<63 - 1, 1<<63 + 5}
 		for i, t := range u.Tokens {
 			if t.Kind == KindFungible || len(u.Users) == 0 || r.Intn(3) == 0 {
 				continue
